@@ -175,7 +175,7 @@ class ArbitraryDistance:
     as solver constraints - the function's documented precondition "must satisfy the 4 properties of distance").  Strings that are not among the
     known ones (should not happen: engines only compare inputs) get a fresh value as well."""
 
-    def __init__(self, strings, name="cd"):
+    def __init__(self, strings, name="cd", metric=False):
         from vlib import sym
         self.strings = list(strings)
         n = len(self.strings)
@@ -191,14 +191,15 @@ class ArbitraryDistance:
                 for l in range(n):
                     if l != i and l != j:
                         sym.assume(so.b_implies(eqs[i][j], so.eq(self.D[i][l], self.D[j][l])))
-        # the documented precondition: a distance in the mathematical sense - positive on distinct strings and
-        # satisfying the triangle inequality (symmetry and d(x, x) = 0 hold by construction)
-        for i in range(n):
-            for j in range(i + 1, n):
-                sym.assume(so.b_or(eqs[i][j], so.gt(self.D[i][j], 0)))
-                for l in range(n):
-                    if l != i and l != j:
-                        sym.assume(so.le(self.D[i][j], so.add(self.D[i][l], self.D[l][j])))
+        # Domain = the property's quantifier: symmetric functions of the content with d(x, x) = 0.  `metric=True` adds the
+        # stricter documented precondition (positive on distinct strings, triangle inequality).
+        if metric:
+            for i in range(n):
+                for j in range(i + 1, n):
+                    sym.assume(so.b_or(eqs[i][j], so.gt(self.D[i][j], 0)))
+                    for l in range(n):
+                        if l != i and l != j:
+                            sym.assume(so.le(self.D[i][j], so.add(self.D[i][l], self.D[l][j])))
         self.calls = 0
 
     def _find(self, s):
